@@ -26,10 +26,11 @@ def build(schema):
     """compile with the REAL library; returns (checker, loaded checker)."""
     from ndn.app_support.light_versec import compile_lvs, Checker
     text = L.render(schema)
-    model = compile_lvs(text)
+    model = L.compile_reused(text)
     fns = L.lib_fns()
     checker = Checker(model, fns)
     loaded = Checker.load(checker.save(), fns)
+    L.build_decoy(checker)
     return checker, loaded
 
 
@@ -68,6 +69,16 @@ def post_loaded(direct, loaded):
 
 
 def observe(ck, name, written):
+    try:
+        # the checker is not handed a first, complete lookup only: an early-exit lookup and two interleaved ones come first
+        it1 = iter(ck.match(name))
+        next(it1, None)
+        it2 = iter(ck.match(name))
+        next(it2, None)
+        next(it1, None)
+        del it1, it2
+    except Exception:   # noqa - the full lookup below reports it
+        pass
     try:
         got, pseudo = L.lib_match_set(ck, name, written)
         return ('ok', got, sorted(pseudo))
